@@ -204,7 +204,7 @@ theorem group_connected (g : MG Name) (S : List Name) (ev : Ctf.Event)
 /-- **line 2 of Algorithm 2 never raises** on a well-formed graph without self-loops when the event mentions only nodes
 (as counterfactual variables or unstarred plain variables); every ctf-factor it returns is non-empty, is named after
 nodes of the graph, and is bidirected-connected in the subgraph induced by its own names. -/
-theorem line2_total (g : MG Name) (hg : g.WF) (hloop : ∀ v, ¬ g.DiEdge v v) (ev : Ctf.Event) (hev : EventOK g ev) :
+theorem line2_ok (g : MG Name) (hg : g.WF) (hloop : ∀ v, ¬ g.DiEdge v v) (ev : Ctf.Event) (hev : EventOK g ev) :
     ∃ anc factors, line2 g ev = .ok (anc, factors) ∧
       ∀ f ∈ factors, f ≠ [] ∧ (∀ p ∈ f, p.1.name ∈ g.nodes) ∧
         (∀ a ∈ f, ∀ b ∈ f, (g.subgraph (dedup' (f.map (·.1.name)))).SameDistrict a.1.name b.1.name) := by
